@@ -38,6 +38,7 @@ type Req struct {
 	TimeOffset    int                      // seconds added to now when Time is zero
 	Expires       int                      // presign
 	Chunks        []int                    // chunk sizes for streaming modes (last chunk takes the rest)
+	UnsignedTail  int                      // signed streaming modes: the last n bytes go as a chunk with an EMPTY chunk-signature, outside the chain
 	Trailer       string                   // checksum algorithm for trailer modes: crc32|crc32c|sha1|sha256|crc64nvme
 	Defect        string                   // credential / integrity defect injected after a correct signature was computed
 	WireMut       func(wire []byte) []byte // mutation of the encoded body after encoding/signing
@@ -224,7 +225,7 @@ func (r *Req) prepare(host string) []byte {
 		r.Set("X-Amz-Decoded-Content-Length", strconv.FormatInt(dl, 10))
 		s := r.sign(host, ph, false)
 		r.setAuth(s)
-		wire = EncodeSignedChunks(r.Body, r.Chunks, s.signature, s.key, s.amzDate, s.scope, r.Trailer, r.Auth == "stream-signed-trailer")
+		wire = EncodeSignedChunksTail(r.Body, r.Chunks, s.signature, s.key, s.amzDate, s.scope, r.Trailer, r.Auth == "stream-signed-trailer", r.UnsignedTail)
 	case "stream-unsigned-trailer":
 		r.Set("X-Amz-Trailer", "x-amz-checksum-"+r.Trailer)
 		dl := int64(len(r.Body))
@@ -270,6 +271,13 @@ func splitChunks(n int, sizes []int) []int {
 
 // EncodeSignedChunks builds an aws-chunked body with the SigV4 chunk-signature chain.
 func EncodeSignedChunks(body []byte, sizes []int, seed string, key []byte, amzDate, scope, trailerAlgo string, trailer bool) []byte {
+	return EncodeSignedChunksTail(body, sizes, seed, key, amzDate, scope, trailerAlgo, trailer, 0)
+}
+
+// EncodeSignedChunksTail is EncodeSignedChunks with the last `unsignedTail` bytes of the body sent as one more
+// data chunk whose chunk-signature value is EMPTY and which is left out of the signature chain (the final
+// chunk is signed as if it followed the last signed chunk): a stream in which one chunk carries no proof.
+func EncodeSignedChunksTail(body []byte, sizes []int, seed string, key []byte, amzDate, scope, trailerAlgo string, trailer bool, unsignedTail int) []byte {
 	const emptyHash = "e3b0c44298fc1c149afbf4c8996fb92427ae41e4649b934ca495991b7852b855"
 	var w bytes.Buffer
 	prev := seed
@@ -284,9 +292,18 @@ func EncodeSignedChunks(body []byte, sizes []int, seed string, key []byte, amzDa
 			w.WriteString("\r\n")
 		}
 	}
-	for _, s := range splitChunks(len(body), sizes) {
+	if unsignedTail > len(body) {
+		unsignedTail = len(body)
+	}
+	signed := len(body) - unsignedTail
+	for _, s := range splitChunks(signed, sizes) {
 		chunk(body[off : off+s])
 		off += s
+	}
+	if unsignedTail > 0 {
+		fmt.Fprintf(&w, "%x;chunk-signature=\r\n", unsignedTail)
+		w.Write(body[signed:])
+		w.WriteString("\r\n")
 	}
 	chunk(nil)
 	if trailer {
